@@ -200,7 +200,45 @@ def rule_r6(repo):
     return res
 
 
+def rule_r7(repo):
+    """Whether a step is accepted must depend on the step alone.  A container that survives the call - a
+    mutable default argument that the function (or a helper nested in it) fills, or a module-level /
+    class-level table an evaluation-side function both fills and consults - carries facts established
+    under the premises and context of one step over to the next."""
+    from .. import persist
+    res = RuleResult('C18.R7', 'no evaluation-side function of the reconstruction fills a container that outlives the call and is consulted later', floor=150)
+    n = 0
+    for f in mr.verit_eval_side_functions(repo):
+        n += 1
+        if f.parent is not None:
+            continue          # nested helpers are covered through the function that contains them
+        key = '%s :: %s :: call-local-state' % (f.module.rel, f.qualname)
+        bad = []
+        for p, d in persist.mutable_defaults(f.node).items():
+            if persist.rebinds(f.node, p):
+                continue
+            muts = persist.mutations_of(f.node, lambda e, p=p: isinstance(e, ast.Name) and e.id == p)
+            if muts:
+                bad.append('default value `%s=%s` is one object for all calls and is modified at line %d (%s)' % (p, src(d, 20), muts[0][0], muts[0][1]))
+        conts = set(persist.module_containers(f.module))
+        if f.cls is not None:
+            conts |= {'self.' + c for c in persist.class_containers(f.cls.node)} | {'%s.%s' % (f.cls.name, c) for c in persist.class_containers(f.cls.node)}
+        locals_ = {a.arg for a in ast.walk(f.node) if isinstance(a, ast.arg)} | \
+            {t.id for x in ast.walk(f.node) if isinstance(x, ast.Assign) for t in x.targets if isinstance(t, ast.Name)}
+        for c in sorted(conts):
+            if c in locals_:
+                continue
+            muts = persist.mutations_of(f.node, lambda e, c=c: src(e) == c)
+            if muts:
+                bad.append('module / class level `%s` is modified at line %d (%s)' % (c, muts[0][0], muts[0][1]))
+        res.add(key, not bad, 'all containers it fills are created in the call' if not bad else
+                '; '.join(bad) + ' -- what one step established (under its own premises and context) is still there when the next step is evaluated',
+                f.loc, nontrivial=bool(bad))
+    res.info['functions_scanned'] = n
+    return res
+
+
 def rules(repo):
     r1 = mr.zip_rule(repo, 'C18.R1', mr.verit_eval_side_functions(repo), floor=9)
     r2 = mr.hyps_rule(repo, 'C18.R2', mr.verit_macros, floor=80)
-    return [r1, r2, rule_r3(repo), rule_r4(repo), rule_r5(repo), rule_r6(repo)]
+    return [r1, r2, rule_r3(repo), rule_r4(repo), rule_r5(repo), rule_r6(repo), rule_r7(repo)]
